@@ -26,6 +26,7 @@ extern MPT_STRUCT(node) *mpt_node_append(MPT_STRUCT(node) *old, const MPT_STRUCT
 	MPT_STRUCT(node) *conf;
 	MPT_INTERFACE(metatype) *mt;
 	const char *data;
+	size_t nlen;
 	
 	/* no save operation */
 	if (!(currop & 0xf)) {
@@ -39,17 +40,19 @@ extern MPT_STRUCT(node) *mpt_node_append(MPT_STRUCT(node) *old, const MPT_STRUCT
 		}
 		return old;
 	}
-	/* new node has identifier */
+	/* new node has identifier (length cache of path is limited to short elements) */
 	if (currop & MPT_PARSEFLAG(Section)) {
-		if (mpt_path_last(&path) < 0) {
+		int len;
+		if ((len = mpt_path_last(&path)) < 0) {
 			return 0;
 		}
+		nlen = len;
 		data = path.base + path.off;
 	}
 	/* data-only element */
 	else {
 		data = 0;
-		path.first = 0;
+		nlen = 0;
 	}
 	/* create data for node */
 	mt = 0;
@@ -57,14 +60,14 @@ extern MPT_STRUCT(node) *mpt_node_append(MPT_STRUCT(node) *old, const MPT_STRUCT
 		return 0;
 	}
 	/* create node with (optional) metadata segment */
-	if (!(conf = mpt_node_new(path.first + 1))) {
+	if (!(conf = mpt_node_new(nlen + 1))) {
 		if (mt) {
 			mt->_vptr->unref(mt);
 		}
 		return 0;
 	}
 	conf->_meta = mt;
-	if (path.first && !mpt_identifier_set(&conf->ident, data, path.first)) {
+	if (nlen && !mpt_identifier_set(&conf->ident, data, nlen)) {
 		mpt_node_destroy(conf);
 		return 0;
 	}
